@@ -196,9 +196,14 @@ def check(run):
                          'are created per read', 2)
     R.rule('C01.join', 'message payload = in-order join of bytes(frame.payload) for every frame, or the decompressor output', 3)
     R.rule('C01.bookkeeping', 'per-frame bookkeeping (text tracking / validator reset) is sound and runs for every frame', 6)
+    R.rule('C01.accept', 'frame validation rejects only frames RFC 6455 / RFC 7692 forbid: every raise in Frame.validate / '
+                         'validate_reserved_bits (both frame classes) sits under one of the enumerated illegal conditions', 4)
     alias(R)
     conserve(R)
     dispatch(R)
+    from .common import event_fields
+    event_fields(R, 'C01.dispatch', ['Text', 'Binary', 'Ping', 'Pong', 'Closed', 'Closing'])
+    accept(R)
     length(R)
     from . import C04
     C04.wire(R, RID='C01.length')
@@ -520,6 +525,44 @@ def dispatch(R):
         ok = bool(evq) and [otext(R, g3, y, a) for a in call_args_by_name(v, R.func(evq[0] + '.__init__'))] == [
             'message.code', 'message.reason']
         R.ob('C01.dispatch', '_on_close events carry the message\'s code and reason', ok, 'yield %s' % U(v), func=q3, node=v)
+
+
+# ---------------------------------------------------------------------------------------------- accept
+def accept(R, RID='C01.accept'):
+    """Every way frame validation can fail is one of the conditions the RFCs make illegal - a stricter test (say RSV1 on
+    the first fragment of a compressed message) drops conforming messages."""
+    from .common import path_conditions, interval_of
+    for recv in ('frame.Frame', 'frame.CompressedFrame'):
+        quals = ['frame.Frame.validate', R.prog.find_method(recv, 'validate_reserved_bits').qual]
+        nsites = 0
+        for fq in quals:
+            g2 = R.cfg(fq, recv)
+            rd2 = ReachingDefs(g2)
+            for rn in g2.live_nodes():
+                if not (rn.kind == 'stmt' and isinstance(rn.ast, ast.Raise)):
+                    continue
+                nsites += 1
+                bad = []
+                for l in path_conditions(R, g2, rd2, g2.entry, rn):
+                    T = lambda t, p=True: (t, p) in l
+                    ctl = T('self.opcode >= 8')
+                    lo, hi = interval_of(R, g2.ctx, l, 'len(self.payload)')
+                    legal = (
+                        T('is_reserved(self.opcode)')
+                        or (ctl and T('self.fin', False))
+                        or (ctl and lo >= 126)
+                        or T('self.rsv2') or T('self.rsv3')
+                        or (T('self.rsv1') and recv == 'frame.Frame')
+                        # RFC 7692 6.1: RSV1 only on the first frame of a data message
+                        or (T('self.rsv1') and (ctl or T('self.opcode == Opcode.CONTINUATION'))))
+                    if not legal:
+                        bad.append(sorted(l))
+                R.ob(RID, '%s: raise only for an illegal frame' % recv.split('.')[-1], not bad,
+                     'validation of a %s fails under %s - not one of: reserved opcode, fragmented / oversize control frame, '
+                     'reserved bit, RSV1 on a control or continuation frame; a conforming frame is rejected and its '
+                     'message lost' % (recv.split('.')[-1], bad[:1]), func=fq, node=rn.ast,
+                     construct='%s raise %s' % (recv, U(rn.ast.exc)[:60]))
+        need(nsites >= 2, 'Frame.validate (%s): raise sites not found' % recv)
 
 
 # ---------------------------------------------------------------------------------------------- length
